@@ -272,7 +272,7 @@ pub fn run(ctx: &Ctx) {
     // ---- exhaustive small histories
     let plans: Vec<(usize, usize, u64)> = if thorough {
         // (objects, K, keep one in `den`)
-        vec![(2, 1, 1), (2, 2, 1), (2, 3, 1), (3, 1, 1), (3, 2, 1), (4, 1, 1), (3, 3, 40), (4, 2, 8)]
+        vec![(2, 1, 1), (2, 2, 1), (2, 3, 1), (3, 1, 1), (3, 2, 1), (4, 1, 1), (3, 3, 120), (4, 2, 24)]
     } else {
         vec![(2, 1, 1), (2, 2, 1), (2, 3, 10), (3, 1, 1), (3, 2, 10), (4, 1, 2), (3, 3, 1500), (4, 2, 250)]
     };
